@@ -33,10 +33,10 @@ wait_for() { local i; for ((i = 0; i < 1500; i++)); do [[ -e "$1" ]] && return 0
 # overlapping requests: the run is prepared (its files are written) and the process runs, but it has not
 # read its binding context yet — it tells the harness and waits to be let go
 if [[ -e "$ctl/sync/pregate" ]]; then tok="$ctl/sync/proc.$$.$(date +%s%N)"; : > "$tok.ready"; wait_for "$tok.go"; fi
-binding=$(jq -r '.[0].binding' "$BINDING_CONTEXT_PATH")
-uid=$(jq -r '.[0].review.request.uid' "$BINDING_CONTEXT_PATH")
+# what this process was handed: how many binding contexts, for which binding, of which type, and the request in it
+IFS=$'\x1f' read -r nctx binding typ uid rname < <(jq -r '[length, .[0].binding, .[0].type, .[0].review.request.uid, .[0].review.request.name] | map(tostring) | join("\u001f")' "$BINDING_CONTEXT_PATH")
 idx=$(grep -nxF -- "$binding" "$ctl/$me.names" | head -1 | cut -d: -f1)
-echo "$me ${idx:-0} $uid" >> "$ctl/log"
+echo "$me ${idx:-0} ${uid:-null} ${typ:-null} ${nctx:-0} ${rname:-null}" >> "$ctl/log"
 # what to do: per request (ctl/uid.<uid>.*) if scripted, else per binding (ctl/<hook>.<index>.*)
 base="$ctl/$me.$idx"
 if [[ -f "$ctl/uid.$uid.exit" ]]; then base="$ctl/uid.$uid"; fi
@@ -85,6 +85,89 @@ type c14Binding struct {
 	Kind string // v | m
 	Name string
 }
+
+// the optional fields of an admission binding's configuration (none of them is named by the property:
+// whatever they are, the request is handed to the hook as an admission review and the answer fails closed)
+type c14Opts struct {
+	Group         string // "group"
+	FailurePolicy string // "failurePolicy": Fail | Ignore
+	SideEffects   string // "sideEffects": None | NoneOnDryRun
+	Timeout       int    // "timeoutSeconds"
+	Selector      bool   // "labelSelector"
+	NsSelector    bool   // "namespace": {"labelSelector": …}
+}
+
+func (o c14Opts) json() string {
+	s := ""
+	if o.Group != "" {
+		s += fmt.Sprintf(`,"group":%q`, o.Group)
+	}
+	if o.FailurePolicy != "" {
+		s += fmt.Sprintf(`,"failurePolicy":%q`, o.FailurePolicy)
+	}
+	if o.SideEffects != "" {
+		s += fmt.Sprintf(`,"sideEffects":%q`, o.SideEffects)
+	}
+	if o.Timeout != 0 {
+		s += fmt.Sprintf(`,"timeoutSeconds":%d`, o.Timeout)
+	}
+	if o.Selector {
+		s += `,"labelSelector":{"matchLabels":{"c14":"yes"}}`
+	}
+	if o.NsSelector {
+		s += `,"namespace":{"labelSelector":{"matchExpressions":[{"key":"c14","operator":"Exists"}]}}`
+	}
+	return s
+}
+
+// token: the options in the protocol line, appended to the binding's kind (`m,g=main,fp=Ignore`)
+func (o c14Opts) token() string {
+	s := ""
+	if o.Group != "" {
+		s += ",g=" + o.Group
+	}
+	if o.FailurePolicy != "" {
+		s += ",fp=" + o.FailurePolicy
+	}
+	if o.SideEffects != "" {
+		s += ",se=" + o.SideEffects
+	}
+	if o.Timeout != 0 {
+		s += fmt.Sprintf(",ts=%d", o.Timeout)
+	}
+	if o.Selector {
+		s += ",ls=1"
+	}
+	if o.NsSelector {
+		s += ",ns=1"
+	}
+	return s
+}
+
+// c14GenOpts: about 40 % of the bindings carry optional configuration fields
+func c14GenOpts(rng *Rng) c14Opts {
+	var o c14Opts
+	if !rng.Chance(40) {
+		return o
+	}
+	if rng.Chance(50) {
+		o.Group = PickOne(rng, []string{"main", "main", "second"})
+	}
+	if rng.Chance(60) {
+		o.FailurePolicy = PickOne(rng, []string{"Ignore", "Ignore", "Fail"})
+	}
+	if rng.Chance(25) {
+		o.SideEffects = PickOne(rng, []string{"None", "NoneOnDryRun"})
+	}
+	if rng.Chance(25) {
+		o.Timeout = rng.Range(1, 30)
+	}
+	o.Selector = rng.Chance(15)
+	o.NsSelector = rng.Chance(15)
+	return o
+}
+
+func c14OptKey(b c14Binding) string { return b.Kind + "|" + b.Name }
 
 // what the hook does for one binding name
 type c14Outcome struct {
@@ -274,6 +357,7 @@ type c14Hook struct {
 	ID       int
 	Bindings []c14Binding
 	Out      map[string]c14Outcome // by binding name
+	Opts     map[string]c14Opts    // by c14OptKey (kind|name): the optional fields of the binding's configuration
 }
 
 type c14Req struct {
@@ -313,6 +397,9 @@ var c14ValidatingNames = []string{"a.example.com", "b.example.com", "my.hook.ex.
 var c14MutatingNames = []string{"myHook", "my-hook", "hooks/nextHook", "weird spaced Name", "UPPER", "mutate.example.com",
 	"a.example.com", "x.y.z", "dashed---Name", "ünï.code", "a//b", "/lead", "trail/", "my.hook.ex.io"}
 
+// the name of the object in the AdmissionRequest: the hook process logs what it finds there
+func c14ReqName(q c14Req) string { return "pod-of-" + q.UID }
+
 func c14RegisteredPath(name string) string { return "/hooks/" + string_helper.SafeURLString(name) }
 
 // c14RunCase builds the operator over generated hooks and sends the requests through the real chain.
@@ -341,7 +428,16 @@ func c14RunSteps(r *Run, c *Case, hooks []c14Hook, steps []c14Step) {
 		seen := map[string]bool{}
 		for _, b := range h.Bindings {
 			nb, _ := json.Marshal(b.Name)
-			item := fmt.Sprintf(`{"name":%s,%s}`, nb, rule)
+			item := fmt.Sprintf(`{"name":%s%s,%s}`, nb, h.Opts[c14OptKey(b)].json(), rule)
+			if o := h.Opts[c14OptKey(b)]; o != (c14Opts{}) {
+				c.Note("binding:options")
+				if o.Group != "" {
+					c.Note("binding:group:" + b.Kind)
+				}
+				if o.FailurePolicy != "" {
+					c.Note("binding:failurePolicy=" + o.FailurePolicy)
+				}
+			}
 			if b.Kind == "v" {
 				v = append(v, item)
 			} else {
@@ -373,7 +469,7 @@ func c14RunSteps(r *Run, c *Case, hooks []c14Hook, steps []c14Step) {
 		// the protocol line
 		var toks []string
 		for _, b := range h.Bindings {
-			toks = append(toks, b.Kind+"|"+c14Enc(b.Name)+"|"+h.Out[b.Name].token())
+			toks = append(toks, b.Kind+h.Opts[c14OptKey(b)].token()+"|"+c14Enc(b.Name)+"|"+h.Out[b.Name].token())
 		}
 		c.Op(fmt.Sprintf("hook %d %s", h.ID, strings.Join(toks, " ")), "ok")
 	}
@@ -415,7 +511,7 @@ func c14RunSteps(r *Run, c *Case, hooks []c14Hook, steps []c14Step) {
 		var body string
 		switch q.Body {
 		case "ok":
-			body = fmt.Sprintf(`{"apiVersion":"admission.k8s.io/v1","kind":"AdmissionReview","request":{"uid":%q,"kind":{"group":"","version":"v1","kind":"Pod"},"resource":{"group":"","version":"v1","resource":"pods"},"name":"p","namespace":"default","operation":"CREATE","object":{"apiVersion":"v1","kind":"Pod","metadata":{"name":"p"}}}}`, q.UID)
+			body = fmt.Sprintf(`{"apiVersion":"admission.k8s.io/v1","kind":"AdmissionReview","request":{"uid":%q,"kind":{"group":"","version":"v1","kind":"Pod"},"resource":{"group":"","version":"v1","resource":"pods"},"name":%q,"namespace":"default","operation":"CREATE","object":{"apiVersion":"v1","kind":"Pod","metadata":{"name":"p"}}}}`, q.UID, c14ReqName(q))
 		case "garbage":
 			body = `{"apiVersion": "admission.k8s.io/v1", "request": [`
 		default:
@@ -434,11 +530,44 @@ func c14RunSteps(r *Run, c *Case, hooks []c14Hook, steps []c14Step) {
 	// logged during the step, stepUIDs = the uids of the step's requests
 	// own = the log line of the hook process that was started for this request, when the scripted
 	// interleaving tells ("" = the lines that carry the request's uid)
-	report := func(q c14Req, rec *httptest.ResponseRecorder, logLines []string, stepUIDs map[string]bool, own string) {
+	// what a hook process found in its binding context file (from its log line): for which binding of which
+	// hook, the uid and the object name of the AdmissionRequest in it, the context's type, how many contexts
+	type found struct {
+		hid                   int
+		name, uid, typ, rname string
+		n                     int
+	}
+	parseFound := func(line string) found {
+		f := strings.Fields(line)
+		g := found{-1, "?", "?", "?", "?", -1}
+		if len(f) >= 3 {
+			idx, _ := strconv.Atoi(f[1])
+			g.hid, g.name = nameOf(f[0], idx)
+			g.uid = f[2]
+		}
+		if len(f) >= 6 {
+			g.typ, g.rname = f[3], f[5]
+			g.n, _ = strconv.Atoi(f[4])
+		}
+		return g
+	}
+	// the hand-over clause on one observed hook process: it was started for the request q
+	handed := func(q c14Req, g found) {
+		c.Oracle(fmt.Sprintf("handed path=%s uid=%s name=%s ghook=%d gbinding=%s guid=%s gtype=%s gn=%d gname=%s", c14Enc(q.Path), c14Enc(q.UID),
+			c14Enc(c14ReqName(q)), g.hid, c14Enc(g.name), c14Enc(g.uid), c14Enc(g.typ), g.n, c14Enc(g.rname)))
+		c.Note("handed:type=" + g.typ)
+	}
+	// plain = the request was the only one in flight
+	report := func(q c14Req, rec *httptest.ResponseRecorder, logLines []string, stepUIDs map[string]bool, own string, plain bool) {
 		// who ran
 		ran := "-"
 		var mine []string
 		foreign := 0
+		if plain && own == "" && len(logLines) == 1 {
+			// nothing else is in flight: the only process that logged is the one that was started for this request
+			own = logLines[0]
+			handed(q, parseFound(own))
+		}
 		if own != "" {
 			mine, logLines = []string{own}, nil
 		}
@@ -719,10 +848,6 @@ func c14RunSteps(r *Run, c *Case, hooks []c14Hook, steps []c14Step) {
 				}
 			}
 			// what the hook process started for request i found in its binding context (from its log line)
-			type found struct {
-				hid       int
-				name, uid string
-			}
 			var got found
 			// moves request i forward to the stage asked for: "ok" (reached), "answered" (the request was
 			// answered on the way), "" (a yield point / marker did not show up in time)
@@ -749,15 +874,9 @@ func c14RunSteps(r *Run, c *Case, hooks []c14Hook, steps []c14Step) {
 						if r == "ok" {
 							// exactly one request was let go: the new log line is its hook process
 							lines := logNow()
-							f := strings.Fields(lines[before])
 							logSeen = len(lines)
 							procIdx[i] = before
-							got = found{-1, "?", "?"}
-							if len(f) >= 3 {
-								idx, _ := strconv.Atoi(f[1])
-								got.hid, got.name = nameOf(f[0], idx)
-								got.uid = f[2]
-							}
+							got = parseFound(lines[before])
 						}
 					}
 					switch r {
@@ -808,7 +927,7 @@ func c14RunSteps(r *Run, c *Case, hooks []c14Hook, steps []c14Step) {
 							c.Op(startLine, "handed-another-request")
 							deviated = true
 						}
-						c.Oracle(fmt.Sprintf("handed path=%s uid=%s ghook=%d gbinding=%s guid=%s", c14Enc(q.Path), c14Enc(q.UID), got.hid, c14Enc(got.name), c14Enc(got.uid)))
+						handed(q, got)
 					case "answered":
 						c.Op(startLine, "answered")
 					default:
@@ -858,7 +977,7 @@ func c14RunSteps(r *Run, c *Case, hooks []c14Hook, steps []c14Step) {
 		}
 		for i, q := range st.Reqs {
 			if procIdx[i] >= 0 && procIdx[i] < len(logLines) {
-				report(q, recs[i], nil, uids, logLines[procIdx[i]])
+				report(q, recs[i], nil, uids, logLines[procIdx[i]], false)
 				continue
 			}
 			var rest []string
@@ -871,7 +990,7 @@ func c14RunSteps(r *Run, c *Case, hooks []c14Hook, steps []c14Step) {
 					rest = append(rest, l)
 				}
 			}
-			report(q, recs[i], rest, uids, "")
+			report(q, recs[i], rest, uids, "", len(st.Sched) == 0 && len(st.Reqs) == 1)
 		}
 	}
 }
@@ -919,7 +1038,7 @@ func c14Variant(rng *Rng, p string) string {
 }
 
 func runC14(r *Run) {
-	r.Rule = "1-3 hooks with 1-3 validating/mutating bindings each (fully qualified names for validating; arbitrary names for mutating: upper case, blanks, slashes, empty path segments, non-ASCII; names whose SafeURL forms collide within and across hooks), a scripted outcome per (hook, binding) or per request: how the hook process ends (exit 0; an exit status 1-255 incl. 126, 127, 128+n, 255; a signal — KILL, TERM, SEGV, ABRT, USR1, ALRM — that terminates it after it wrote its files; before it ends it may print a line on stdout and / or stderr) x response file (empty, not JSON, truncated, wrong types, bad base64, JSON followed by garbage, two documents, {}, null, unknown fields, allowed/denied with message/warnings/base64 JSONPatch); 3-6 requests per case: registered paths and variants (trailing/double slashes, upper case, other configuration id, prefix/suffix changes, unknown, /, /hooks), bodies valid / garbage / without request. A run may also leave metric / object patch operation files behind (a valid metric operation; a metrics file that is not JSON; a metric operation that does not validate; an unknown object patch operation; an unparsable object patch file) — all but the first make the hook task fail after a clean exit. Overlap cases: 2-4 requests in flight at the same time (mostly to the same hook and binding, also to other bindings of the same hook and to other hooks, each with its own uid and its own scripted outcome), the order of \"handed over by the hook manager (task and binding context built, hook run not begun) / run prepared (Hook.Run wrote the binding context file and the other files, process not started) / hook process started / hook writes its files / hook exits\" over all of them chosen at random and forced with a yield point in the event closure (verifsched admission.taskBuilt), a gate at the very start of the hook process (before it reads its binding context) and marker files; every hook process is checked against the request it was started for (which request uid, which hook and binding it found in its binding context), every answer against its own request. Everything runs through the real chain: chi router of the admission WebhookHandler (httptest) -> the event closure of initValidatingWebhookManager -> HookManager routing -> taskHandler -> Hook.Run -> bash -> response file -> AdmissionReview. Plus differential lines for SafeURLString and detectConfigurationAndWebhook on random strings. A case is non-trivial when a hook process ran; distinct = distinct op-line sequences."
+	r.Rule = "1-3 hooks with 1-3 validating/mutating bindings each (fully qualified names for validating; arbitrary names for mutating: upper case, blanks, slashes, empty path segments, non-ASCII; names whose SafeURL forms collide within and across hooks; about 40 % of the bindings carry optional configuration fields: group, failurePolicy Fail/Ignore, sideEffects, timeoutSeconds, labelSelector, namespace selector — and the complete table kind x group x failurePolicy x 12 classes of run), every AdmissionRequest names its own object and every hook process logs what it was handed (number of binding contexts, binding, context type, request uid and object name: checked for every request against the request sent and the kind of the registering binding), a scripted outcome per (hook, binding) or per request: how the hook process ends (exit 0; an exit status 1-255 incl. 126, 127, 128+n, 255; a signal — KILL, TERM, SEGV, ABRT, USR1, ALRM — that terminates it after it wrote its files; before it ends it may print a line on stdout and / or stderr) x response file (empty, not JSON, truncated, wrong types, bad base64, JSON followed by garbage, two documents, {}, null, unknown fields, allowed/denied with message/warnings/base64 JSONPatch); 3-6 requests per case: registered paths and variants (trailing/double slashes, upper case, other configuration id, prefix/suffix changes, unknown, /, /hooks), bodies valid / garbage / without request. A run may also leave metric / object patch operation files behind (a valid metric operation; a metrics file that is not JSON; a metric operation that does not validate; an unknown object patch operation; an unparsable object patch file) — all but the first make the hook task fail after a clean exit. Overlap cases: 2-4 requests in flight at the same time (mostly to the same hook and binding, also to other bindings of the same hook and to other hooks, each with its own uid and its own scripted outcome), the order of \"handed over by the hook manager (task and binding context built, hook run not begun) / run prepared (Hook.Run wrote the binding context file and the other files, process not started) / hook process started / hook writes its files / hook exits\" over all of them chosen at random and forced with a yield point in the event closure (verifsched admission.taskBuilt), a gate at the very start of the hook process (before it reads its binding context) and marker files; every hook process is checked against the request it was started for (which request uid, which hook and binding it found in its binding context), every answer against its own request. Everything runs through the real chain: chi router of the admission WebhookHandler (httptest) -> the event closure of initValidatingWebhookManager -> HookManager routing -> taskHandler -> Hook.Run -> bash -> response file -> AdmissionReview. Plus differential lines for SafeURLString and detectConfigurationAndWebhook on random strings. A case is non-trivial when a hook process ran; distinct = distinct op-line sequences."
 	c14SharedHook(r)
 
 	// ---- corpus
@@ -1088,6 +1207,73 @@ func runC14(r *Run) {
 	})
 	r.Extra["exhaustive_ending_table"] = fmt.Sprintf("%d exit statuses besides 0 (%v) and %d terminating signals (%v) x %d response-file classes x {validating, mutating}", len(c14ExitCodes), c14ExitCodes, len(c14Signals), c14Signals, len(endFiles))
 
+	// ---- the optional fields of a binding's configuration: kind x group x failurePolicy x (sideEffects, timeoutSeconds,
+	// selectors rotating), every class of run behind each: the request must be handed over as an admission review of the
+	// binding's kind and every failure (of the hook, of its response, of applying its other output files) must be a denial
+	ptb := `[{"op":"add","path":"/metadata/labels/c14","value":"set"}]`
+	ptb64 := base64.StdEncoding.EncodeToString([]byte(ptb))
+	optRuns := []c14Outcome{
+		{Kind: "a", Warns: []string{"w 1"}, Patch: ptb, Content: `{"allowed": true, "warnings": ["w 1"], "patch": "` + ptb64 + `"}`},
+		{Kind: "d", Msg: "no", Content: `{"allowed": false, "message": "no"}`},
+		{Kind: "a", Side: "bad.po", Content: `{"allowed": true}`}, {Kind: "a", Side: "bad.pg", Content: `{"allowed": true}`},
+		{Kind: "a", Side: "bad.mo", Content: `{"allowed": true}`}, {Kind: "a", Side: "bad.ms", Content: `{"allowed": true}`},
+		{Kind: "a", Side: "ok.mv", Content: `{"allowed": true}`},
+		{Kind: "a", Exit: 1, Content: `{"allowed": true}`}, {Kind: "a", Sig: 9, Content: `{"allowed": true}`},
+		{Kind: "e"}, {Kind: "g", Content: "this is not json"}, {Kind: "e", Side: "bad.po"},
+	}
+	optGroups := []string{"", "main"}
+	optPolicies := []string{"", "Fail", "Ignore"}
+	r.Cases(800, 2*len(optGroups)*len(optPolicies), 0, func(c *Case, _ *Rng) {
+		k := c.Idx - 800
+		kind := []string{"v", "m"}[k%2]
+		k /= 2
+		o := c14Opts{Group: optGroups[k%len(optGroups)]}
+		k /= len(optGroups)
+		o.FailurePolicy = optPolicies[k]
+		switch (c.Idx - 800) % 4 {
+		case 1:
+			o.SideEffects, o.Timeout = "NoneOnDryRun", 7
+		case 2:
+			o.Selector = true
+		case 3:
+			o.SideEffects, o.NsSelector = "None", true
+		}
+		b := c14Binding{kind, "table.example.com"}
+		// a second binding of the other kind, with the same options, is registered next to it
+		other := c14Binding{map[string]string{"v": "m", "m": "v"}[kind], "other.example.com"}
+		h := c14Hook{ID: 1, Bindings: []c14Binding{b, other}, Out: map[string]c14Outcome{b.Name: {Kind: "a", Content: `{"allowed": true}`}, other.Name: {Kind: "d", Msg: "other", Content: `{"allowed": false, "message": "other"}`}},
+			Opts: map[string]c14Opts{c14OptKey(b): o, c14OptKey(other): o}}
+		var reqs []c14Req
+		for i, f := range optRuns {
+			f := f
+			reqs = append(reqs, c14Req{"/hooks/table-example-com", "ok", fmt.Sprintf("o-%d-%d", c.Idx, i), &f})
+		}
+		reqs = append(reqs, c14Req{"/hooks/other-example-com", "ok", fmt.Sprintf("o-%d-other", c.Idx), nil}, c14Req{"/hooks/table-example-com", "ok", fmt.Sprintf("o-%d-plain", c.Idx), nil})
+		c.Desc = fmt.Sprintf("options table: %s binding with %q, every class of run", kind, o.json())
+		c14RunCase(r, c, []c14Hook{h}, reqs)
+		c.Note("case:options-table")
+	})
+	r.Extra["exhaustive_options_table"] = fmt.Sprintf("{validating, mutating} x group {none, set} x failurePolicy {none, Fail, Ignore} (sideEffects / timeoutSeconds / labelSelector / namespace selector rotating) x %d classes of run (allowed with warnings and patch, denied, allowed + 4 kinds of other output files that cannot be applied, + a valid metric operation, exit 1, SIGKILL, empty / malformed response file)", len(optRuns))
+
+	r.One(8, func(c *Case, _ *Rng) {
+		c.Desc = "corpus: bindings with optional configuration fields: a mutating and a validating binding with a group, a binding with failurePolicy Ignore whose run leaves an object patch behind that cannot be applied"
+		allow := func(side string) *c14Outcome {
+			return &c14Outcome{Kind: "a", Patch: ptb, Side: side, Content: `{"allowed": true, "patch": "` + ptb64 + `"}`}
+		}
+		ok := c14Outcome{Kind: "a", Content: `{"allowed":true}`}
+		lab, gate, len_, str := c14Binding{"m", "labeler"}, c14Binding{"v", "gate.example.com"}, c14Binding{"v", "lenient.example.com"}, c14Binding{"m", "strictMut"}
+		h1 := c14Hook{ID: 1, Bindings: []c14Binding{gate, lab}, Out: map[string]c14Outcome{gate.Name: ok, lab.Name: ok},
+			Opts: map[string]c14Opts{c14OptKey(lab): {Group: "main"}, c14OptKey(gate): {Group: "main"}}}
+		h2 := c14Hook{ID: 2, Bindings: []c14Binding{len_, str}, Out: map[string]c14Outcome{len_.Name: ok, str.Name: ok},
+			Opts: map[string]c14Opts{c14OptKey(len_): {FailurePolicy: "Ignore"}, c14OptKey(str): {FailurePolicy: "Ignore", Group: "second", Timeout: 5}}}
+		c14RunCase(r, c, []c14Hook{h1, h2}, []c14Req{
+			{"/hooks/labeler", "ok", "opt-lab", allow("")}, {"/hooks/gate-example-com", "ok", "opt-gate", nil}, {"/hooks/labeler", "ok", "opt-lab-plain", nil},
+			{"/hooks/lenient-example-com", "ok", "opt-len-po", allow("bad.po")}, {"/hooks/lenient-example-com", "ok", "opt-len-mo", allow("bad.mo")},
+			{"/hooks/strict-mut", "ok", "opt-str-pg", allow("bad.pg")}, {"/hooks/strict-mut", "ok", "opt-str-ok", allow("ok.mv")},
+			{"/hooks/lenient-example-com", "ok", "opt-len-exit1", &c14Outcome{Kind: "a", Exit: 1, Content: `{"allowed":true}`}},
+			{"/hooks/lenient-example-com", "ok", "opt-len-plain", nil}})
+	})
+
 	// ---- the complete outcome table: every response-file content class x exit code x binding kind
 	pt := `[{"op":"replace","path":"/spec/x","value":1}]`
 	pt64 := base64.StdEncoding.EncodeToString([]byte(pt))
@@ -1210,7 +1396,7 @@ func runC14(r *Run) {
 		var hooks []c14Hook
 		var regPaths []string
 		for id := 1; id <= nh; id++ {
-			h := c14Hook{ID: id, Out: map[string]c14Outcome{}}
+			h := c14Hook{ID: id, Out: map[string]c14Outcome{}, Opts: map[string]c14Opts{}}
 			nb := rng.Range(1, 3)
 			for i := 0; i < nb; i++ {
 				b := c14Binding{Kind: "v", Name: PickOne(rng, c14ValidatingNames)}
@@ -1227,6 +1413,7 @@ func runC14(r *Run) {
 					continue
 				}
 				h.Bindings = append(h.Bindings, b)
+				h.Opts[c14OptKey(b)] = c14GenOpts(rng)
 				if _, ok := h.Out[b.Name]; !ok {
 					h.Out[b.Name] = c14GenOutcomeSide(rng, fmt.Sprintf("h%d.%d", id, i))
 					c.Note("outcome:file=" + h.Out[b.Name].Kind)
@@ -1278,11 +1465,12 @@ func runC14(r *Run) {
 		var paths []string
 		k := 0
 		for id := 1; id <= nh; id++ {
-			h := c14Hook{ID: id, Out: map[string]c14Outcome{}}
+			h := c14Hook{ID: id, Out: map[string]c14Outcome{}, Opts: map[string]c14Opts{}}
 			for i, nb := 0, rng.Range(1, 2); i < nb; i++ {
 				b := names[k]
 				k++
 				h.Bindings = append(h.Bindings, b)
+				h.Opts[c14OptKey(b)] = c14GenOpts(rng)
 				h.Out[b.Name] = c14GenOutcome(rng, fmt.Sprintf("h%d.%d", id, i))
 				paths = append(paths, c14RegisteredPath(b.Name))
 			}
